@@ -1395,7 +1395,71 @@ fn gen_argv(rng: &mut Rng) -> Vec<String> {
         .collect()
 }
 
+/// 2-4 targets whose `commands.path` is one shared directory; its `build.sh` (and `test.py`) serve the targets
+/// without a definition, while one or two targets define the command with an explicit path of their own - and, in
+/// half of the worlds, one target keeps its executable directly in the target directory. Whatever is resolved for
+/// one target must not leak into another that shares the directory.
+fn gen_c11_shared_cmd_dir(rng: &mut Rng) -> (RunScenario, C11Extra) {
+    let n = rng.range(2, 4);
+    let cmds: Vec<String> = if rng.chance(1, 2) { vec!["build".into()] } else { vec!["build".into(), "test".into()] };
+    let mut targets = vec![];
+    let mut cmd_files = vec![];
+    let mut argmap_files = vec![];
+    let n_defs = rng.range(1, (n - 1).min(2));
+    let mut order: Vec<usize> = (0..n).collect();
+    rng.shuffle(&mut order);
+    let with_def: Vec<usize> = order[..n_defs].to_vec();
+    let in_target_dir = if rng.chance(1, 2) { Some(order[n - 1]) } else { None };
+    for i in 0..n {
+        let path = format!("t{:02}", i);
+        let mut t = crate::world::TargetSpec { path: path.clone(), commands_path: Some("shared-cmds".into()), ..Default::default() };
+        for c in &cmds {
+            let ext = if c == "build" { "sh" } else { "py" };
+            if with_def.contains(&i) {
+                let rel = format!("{}/tools/{}-impl", path, c);
+                t.defs.push((c.clone(), rel.clone()));
+                cmd_files.push(CmdFile { target: path.clone(), command: c.clone(), rel, exec: true, broken: false });
+            } else if in_target_dir == Some(i) {
+                // the executable sits directly in the target directory, which is also the child's working directory
+                let rel = format!("{}/{}", path, c);
+                t.defs.push((c.clone(), rel.clone()));
+                cmd_files.push(CmdFile { target: path.clone(), command: c.clone(), rel, exec: true, broken: false });
+            } else {
+                cmd_files.push(CmdFile { target: path.clone(), command: c.clone(), rel: format!("shared-cmds/{}.{}", c, ext), exec: true, broken: false });
+            }
+        }
+        let mut m = serde_json::Map::new();
+        for c in &cmds {
+            m.insert(c.clone(), json!([format!("--for={}", path), format!("{} {}", c, i)]));
+        }
+        argmap_files.push((format!("{}/monorail/argmap/base.json", path), Value::Object(m).to_string()));
+        targets.push(t);
+    }
+    let spec = WorldSpec { targets, cmd_files, files: vec![], sequences: vec![], max_retained_runs: 2, gitignore: vec![], git: true, lock_host: None, default_ports: 0, omit_max_retained: false, sha256_repo: false, clock_plan: vec![] };
+    let mut opts = RunOpts { commands: cmds.clone(), ..Default::default() };
+    let mode = if rng.chance(1, 2) {
+        let mut ts: Vec<String> = spec.targets.iter().map(|t| t.path.clone()).collect();
+        rng.shuffle(&mut ts);
+        opts.targets = ts;
+        Mode::Named
+    } else {
+        Mode::All
+    };
+    let mut script = RunScript::simple(opts);
+    script.strategy = *rng.pick(&[Strategy::PlanOrder, Strategy::Reverse, Strategy::Uniform]);
+    script.sched_seed = rng.next_u64();
+    script.workers = Some(*rng.pick(&[1u32, 4, 16]));
+    script.rand_seed = Some(rng.next_u64() % 1_000_000);
+    (RunScenario { spec, mode, script, hang_ms: default_hang_ms() }, C11Extra { argmap_files, dangling: vec![] })
+}
+
 fn gen_c11(seed: u64, idx: usize, _tier: Tier) -> (RunScenario, C11Extra) {
+    {
+        let mut srng = Rng::new(scenario_seed(seed, "C11-shared-cmd-dir", idx));
+        if srng.chance(1, 10) {
+            return gen_c11_shared_cmd_dir(&mut srng);
+        }
+    }
     let mut rng = Rng::new(scenario_seed(seed, "C11", idx));
     // one world in ten has dozens of targets (more argmap files in one run than any batch size a loader might use)
     let n = if rng.chance(1, 10) { rng.range(18, 40) } else { rng.range(1, 8) };
@@ -1576,7 +1640,10 @@ fn gen_c11(seed: u64, idx: usize, _tier: Tier) -> (RunScenario, C11Extra) {
 }
 
 fn expected_argv(sc: &RunScenario, ex: &C11Extra, command: &str, target: &str) -> Vec<Vec<u8>> {
-    let t = sc.spec.target(target).unwrap();
+    let t = match sc.spec.target(target) {
+        Some(t) => t,
+        None => return vec![], // a process the world knows nothing about: judged elsewhere (exe/*)
+    };
     let adir = t.argmaps_path.clone().unwrap_or_else(|| format!("{}/monorail/argmap", target));
     let mut v: Vec<Vec<u8>> = vec![];
     let mut add = |name: &str| {
@@ -1733,7 +1800,10 @@ impl Property for C11 {
                         out.violate("argv", class, format!("'{}' for '{}' received argv {:?}, documented concatenation is {:?}", c, t, show(&h.argv), show(&want)));
                     }
                     distinct_argv.insert(want);
-                    let tspec = sc.spec.target(t).unwrap();
+                    let tspec = match sc.spec.target(t) {
+                        Some(x) => x,
+                        None => continue,
+                    };
                     let adir = tspec.argmaps_path.clone().unwrap_or_else(|| format!("{}/monorail/argmap", t));
                     for m in &sc.script.opts.argmaps {
                         if !ex.argmap_files.iter().any(|(f, _)| *f == format!("{}/{}.json", adir, m)) {
